@@ -18,3 +18,68 @@ FILE_PROPS = {
 
 def modules_of(pid):
     return sorted(f[:-3] for f, ps in FILE_PROPS.items() if pid in ps)
+
+
+# Entry points of each property (regular expressions over qualified names;
+# the functions a property is about are those reachable from them through
+# resolved call edges).  Used to attribute package-wide clauses (DM).
+PROP_ROOTS = {
+    'C01': [r'marshal\.marshal', r'marshal\.unmarshal'],
+    'C02': [r'marshal\.marshal', r'marshal\.unmarshal'],
+    'C03': [r'message\.\w+\.__init__', r'message\.DBusMessage\._marshal',
+            r'message\.parseMessage'],
+    'C04': [r'protocol\.BasicDBusProtocol\.dataReceived'],
+    'C05': [r'message\.parseMessage', r'marshal\.unmarshal',
+            r'protocol\.BasicDBusProtocol\.dataReceived'],
+    'C06': [r'authentication\.Bus\w+\..*', r'bus\.BusProtocol\..*',
+            r'protocol\.BasicDBusProtocol\.dataReceived'],
+    'C07': [r'authentication\.ClientAuthenticator\..*',
+            r'protocol\.BasicDBusProtocol\.dataReceived'],
+    'C08': [r'client\.DBusClientConnection\.(callRemote|callRemoteMessage|'
+            r'methodReturnReceived|errorReceived|_onMethodTimeout|'
+            r'_cbCvtReply|connectionLost)'],
+    'C09': [r'client\.connect', r'client\.DBusClientFactory\..*',
+            r'client\.DBusClientConnection\.(connectionLost|'
+            r'connectionAuthenticated|_cbGotHello|notifyOnDisconnect|'
+            r'cancelNotifyOnDisconnect)',
+            r'endpoints\.getDBusEndpoints',
+            r'objects\.DBusObjectHandler\.connectionLost',
+            r'objects\.RemoteDBusObject\.(notifyOnDisconnect|'
+            r'cancelNotifyOnDisconnect|connectionLost)'],
+    'C10': [r'objects\.DBusObjectHandler\.handleMethodCallMessage',
+            r'objects\.DBusObject\.executeMethod'],
+    'C11': [r'objects\.RemoteDBusObject\.callRemote',
+            r'objects\.DBusObjectHandler\.(getRemoteObject|'
+            r'handleMethodCallMessage)',
+            r'client\.DBusClientConnection\.(callRemote|'
+            r'introspectRemoteObject|methodReturnReceived|errorReceived)',
+            r'bus\.BusProtocol\.rawDBusMessageReceived',
+            r'bus\.Bus\.(messageReceived|sendMessage)',
+            r'protocol\.BasicDBusProtocol\.(dataReceived|sendMessage)'],
+    'C12': [r'router\..*', r'client\.DBusClientConnection\.(addMatch|'
+            r'delMatch|signalReceived)',
+            r'objects\.RemoteDBusObject\.(notifyOnSignal|'
+            r'cancelSignalNotification)', r'bus\.Bus\.dbus_(Add|Remove)Match'],
+    'C13': [r'bus\.Bus\.(dbus_RequestName|dbus_ReleaseName|'
+            r'clientDisconnected|dbus_GetNameOwner|dbus_ListQueuedOwners|'
+            r'dbus_NameHasOwner|dbus_ListNames)',
+            r'client\.DBusClientConnection\.(requestBusName|'
+            r'releaseBusName)'],
+    'C14': [r'bus\.BusProtocol\..*', r'bus\.Bus\..*'],
+    'C15': [r'interface\..*', r'introspection\..*'],
+    'C16': [r'objects\.DBusObjectHandler\.(exportObject|unexportObject|'
+            r'getManagedObjects|handleMethodCallMessage)',
+            r'introspection\.generateIntrospectionXML'],
+    'C17': [r'objects\.DBusProperty\..*',
+            r'objects\.DBusObject\.(_dbus_Property\w+|getAllProperties|'
+            r'_getProperty|__init__)', r'interface\.Property\..*'],
+    'C18': [r'marshal\.validate\w+'],
+    'C19': [r'marshal\.(genCompleteTypes|sigFromPy|marshal_variant|'
+            r'unmarshal_variant|marshal|unmarshal)',
+            r'interface\.(Method|Signal)\..*'],
+    'C20': [r'protocol\.BasicDBusProtocol\.(sendMessage|'
+            r'fileDescriptorReceived|dataReceived|rawDBusMessageReceived)',
+            r'marshal\.(marshal_unix_fd|unmarshal_unix_fd|marshal|unmarshal)',
+            r'message\.DBusMessage\._marshal', r'message\.parseMessage',
+            r'client\.DBusClientConnection\.callRemote'],
+}
